@@ -345,18 +345,14 @@ Fixpoint serve_batch (now : Z) (s : server) (b : blocking) (c : Z) (fs : list (f
       end
   end.
 
-(** ---- wake_client (after the repairs 8db2804, e1d4020, bdd75e8, 8ab686d, 0715a3b) ---- *)
-(** the keys of the client, in order, as a fresh blocking call would try them (errors count as
-    "nothing": rpop/lpop(..).unwrap_or(None)) *)
-Fixpoint recheck (left : bool) (d : db) (keys : list bytes) : option (bytes * bytes) * db :=
-  match keys with
-  | [] => (None, d)
-  | k :: r =>
-      match on_key d k (e_pop left) with
-      | (FBulk v, d') => (Some (k, v), d')
-      | (_, d') => recheck left d' r
-      end
-  end.
+(** ---- wake_client (after the repairs 8db2804, e1d4020, bdd75e8, 8ab686d, 0715a3b and the repair of
+    stolen-wakeup-overtakes) ---- *)
+(** the wake-up found nothing and the client is registered again: for each key of its call, in
+    order, that holds an element by now (llen(..).unwrap_or(0) > 0: a key of another type counts
+    as empty) the HEAD of that key's queue is woken, as a push would do.  Nothing is popped here:
+    the element goes to whoever blocked on that key first *)
+Definition renotify (d : db) (b : blocking) (dbi : Z) (keys : list bytes) : blocking :=
+  fold_left (fun b k => match llen_of d k with O => b | S _ => notify_key_ready b dbi k end) keys b.
 Definition wake_client (now : Z) (s : server) (b : blocking) (u : wakeup) : server * blocking :=
   (* expire_if_due(wakeup.db, wakeup.key) *)
   let d := fst (purge_key now (get_db s (u_db u), []) (u_key u)) in
@@ -375,15 +371,13 @@ Definition wake_client (now : Z) (s : server) (b : blocking) (u : wakeup) : serv
   | (_, d') =>        (* nothing there - or a key of another type: lpop(..).unwrap_or(None) *)
       match zlookup (u_conn u) (b_blk b) with
       | Some st =>
-          match recheck (bl_left st) d' (bl_keys st) with
-          | (Some (k, v), d'') =>
-              (* served from another of its keys: logged as the pop of THAT key (293eff6) *)
-              (log_pop (set_db s (u_db u) d'') (u_db u) (bl_left st) k,
-               unblock (emit b (u_conn u) (FArray [FBulk k; FBulk v])) (u_conn u))
-          | (None, d'') =>
-              (set_db s (u_db u) d'',
-               with_reg b (reregister (b_reg b) (u_db u) (u_conn u) (bl_keys st) (bl_left st) (bl_dl st) (u_at u)))
-          end
+          (* still Blocked: registered again under its ORIGINAL stamp on all its keys (8ab686d);
+             then the keys of the call that hold an element have the head of their queue woken -
+             this client or one that blocked earlier.  Nothing is popped and nothing is written *)
+          (set_db s (u_db u) d',
+           renotify d'
+             (with_reg b (reregister (b_reg b) (u_db u) (u_conn u) (bl_keys st) (bl_left st) (bl_dl st) (u_at u)))
+             (u_db u) (bl_keys st))
       | None => (set_db s (u_db u) d', b)
       end
   end.
